@@ -294,6 +294,30 @@ def do_reformat(code, idx, scratch):
         return 'O' + f.read()
 
 
+def do_rm_assign(code, idx, scratch):
+    """Remove the assignment `name = call(...)` / `name = [...]` that is top-level statement idx,
+    through Rewriter.apply_changes (what rm_target does for an assigned target)."""
+    path = os.path.join(scratch, 'rmassign.build')
+    with open(path, 'w', encoding='utf-8', newline='') as f:
+        f.write(code)
+    try:
+        b = parse(code, path)
+    except mp.ParseException:
+        return 'ERR'
+    i = int(idx)
+    if i >= len(b.lines):
+        return '-'
+    n = b.lines[i]
+    if type(n) is not mp.AssignmentNode or not isinstance(n.value, (mp.FunctionNode, mp.ArrayNode)):
+        return '-'
+    rw = make_rewriter()
+    rw.to_remove_nodes.append(n)
+    with quiet():
+        rw.apply_changes()
+    with open(path, encoding='utf-8', newline='') as f:
+        return 'O' + f.read()
+
+
 def do_splice(text, es, scratch):
     """apply_changes with hand-made extents: fake nodes carrying (lineno, colno, end_lineno,
     end_colno); the replacement text is produced by a stub accept()."""
@@ -408,6 +432,8 @@ def main():
                     r = do_reformat(args[0], args[1], scratch)
                 elif fn == 'splice':
                     r = do_splice(args[0], args[1:], scratch)
+                elif fn == 'rm_assign':
+                    r = do_rm_assign(args[0], args[1], scratch)
                 else:
                     r = '?'
             except RecursionError:
